@@ -310,6 +310,9 @@ inductive Ty where
   | enumci (vs : List String)     -- case-insensitive Enum (values kept in lower case)
   | intPat                        -- Pattern[/IntegerPattern/]
   | arr (e : Ty) (lo : Nat) (hi : Option Nat)
+  | tuple (ts : List Ty)                                   -- Tuple[T1,…,Tn] without a size: exactly n elements
+  | hash (k v : Ty) (lo : Nat) (hi : Option Nat)
+  | struct (ms : List (String × Bool × Ty))                -- members: name, key is Optional[…], value type
   | var (ts : List Ty)
   | opt (t : Ty)
   | any | undef | bool | default | never
@@ -322,6 +325,7 @@ inductive Val where
   | undef
   | default
   | arr (vs : List Val)
+  | hash (es : List (Val × Val))                           -- entries in order; nothing merges equal keys (WrapHash)
   deriving Repr, Inhabited
 
 def inRange (lo hi : Option Int) (n : Int) : Bool :=
@@ -353,10 +357,20 @@ def intPattern (cs : List Char) : Bool :=
     | [] => cs
   intBody (cs.dropWhile isSpace)
 
+/-- `Hash.Get(stringValue(name))` as far as "found or not" goes (with equal keys the found *value* may differ from Go's,
+    which answers the last one; `StructType.IsInstance` is false for such a hash either way: `matched < Len()`) -/
+def lookupKey (name : String) : List (Val × Val) → Option Val
+  | [] => none
+  | (k, x) :: es => match k with
+    | .str s => if s = name then some x else lookupKey name es
+    | _ => lookupKey name es
+
 mutual
 /-- `px.IsInstance` on the alphabet: IntegerType.IsInstance (bounds), scStringType.IsInstance (character count),
     EnumType.IsInstance (case-sensitive member; no values = any string), ArrayType (every element), VariantType (some
-    member), OptionalType (undef or the contained type), Any, Undef, Boolean, Default, unresolved TypeReference (nothing);
+    member), OptionalType (undef or the contained type), Any, Undef, Boolean, Default, unresolved TypeReference (nothing),
+    TupleType without size, HashType (size, every key and value), StructType (every member found or optional, its value an
+    instance, and `matched == Len()`);
     for the constructors' own parameter types also the case-insensitive Enum and Pattern[/IntegerPattern/].
     Structural recursion on the type (so that closed instances reduce by `decide`). -/
 def inst : Ty → Val → Bool
@@ -368,6 +382,13 @@ def inst : Ty → Val → Bool
   | .arr e lo hi, v => match v with
     | .arr vs => decide (lo ≤ vs.length) && leMax vs.length hi && vs.all (fun x => inst e x)
     | _ => false
+  | .tuple ts, v => match v with | .arr vs => instZip ts vs | _ => false
+  | .hash kt vt lo hi, v => match v with
+    | .hash es => decide (lo ≤ es.length) && leMax es.length hi && es.all (fun e => inst kt e.1 && inst vt e.2)
+    | _ => false
+  | .struct ms, v => match v with
+    | .hash es => (match instMembers ms es with | some n => n == es.length | none => false)
+    | _ => false
   | .var ts, v => instAny ts v
   | .opt t, v => match v with | .undef => true | _ => inst t v
   | .any, _ => true
@@ -378,6 +399,18 @@ def inst : Ty → Val → Bool
 def instAny : List Ty → Val → Bool
   | [], _ => false
   | t :: ts, v => inst t v || instAny ts v
+/-- `TupleType.IsInstance2` for a tuple without explicit size -/
+def instZip : List Ty → List Val → Bool
+  | [], vs => vs.isEmpty
+  | t :: ts, vs => match vs with
+    | [] => false
+    | v :: vs' => inst t v && instZip ts vs'
+/-- the loop of `StructType.IsInstance`: `none` = an early `return false`, `some n` = `matched` -/
+def instMembers : List (String × Bool × Ty) → List (Val × Val) → Option Nat
+  | [], _ => some 0
+  | (name, opt, t) :: ms, es => match lookupKey name es with
+    | none => if opt then instMembers ms es else none
+    | some x => if inst t x then (instMembers ms es).map (· + 1) else none
 end
 
 /-- declared block types: `Callable` or `Callable[min,max]` -/
